@@ -655,8 +655,10 @@ impl ReceiverDisposer {
                 .and_then(|map| map.swap_remove(&delivery_info.delivery_tag))
         } else {
             let mut lock = self.unsettled.write();
-            lock.get_or_insert(Default::default())
-                .insert(delivery_info.delivery_tag.clone(), Some(state.clone()))
+            // Only a delivery that is still unsettled is updated
+            lock.as_mut()
+                .and_then(|map| map.get_mut(&delivery_info.delivery_tag))
+                .map(|entry| entry.replace(state.clone()))
         };
 
         if unsettled_state.is_some() {
